@@ -6,7 +6,9 @@ mod kzg;
 mod prog;
 mod util;
 
+use std::alloc::{GlobalAlloc, Layout, System};
 use std::io::{BufRead, Write};
+use std::sync::atomic::{AtomicUsize, Ordering};
 use std::panic::{AssertUnwindSafe, catch_unwind};
 use std::sync::OnceLock;
 
@@ -16,6 +18,34 @@ use prog::*;
 use util::*;
 
 pub const SRS_SEED: u64 = 0x5eed_0001;
+
+/// counting allocator: live bytes and high-water mark (reset per request)
+pub struct Counting;
+pub static LIVE: AtomicUsize = AtomicUsize::new(0);
+pub static PEAK: AtomicUsize = AtomicUsize::new(0);
+unsafe impl GlobalAlloc for Counting {
+    unsafe fn alloc(&self, l: Layout) -> *mut u8 {
+        let p = unsafe { System.alloc(l) };
+        if !p.is_null() {
+            let v = LIVE.fetch_add(l.size(), Ordering::Relaxed) + l.size();
+            PEAK.fetch_max(v, Ordering::Relaxed);
+        }
+        p
+    }
+    unsafe fn dealloc(&self, p: *mut u8, l: Layout) {
+        LIVE.fetch_sub(l.size(), Ordering::Relaxed);
+        unsafe { System.dealloc(p, l) }
+    }
+}
+#[global_allocator]
+static GLOBAL: Counting = Counting;
+
+pub fn peak_during<T>(f: impl FnOnce() -> T) -> (T, usize) {
+    let base = LIVE.load(Ordering::Relaxed);
+    PEAK.store(base, Ordering::Relaxed);
+    let r = f();
+    (r, PEAK.load(Ordering::Relaxed).saturating_sub(base))
+}
 
 fn pp(cap: usize) -> &'static PublicParameters {
     static PP: OnceLock<PublicParameters> = OnceLock::new();
@@ -111,6 +141,9 @@ fn answer(line: &str, cap: usize) -> String {
     match cmd {
         "prog" => prog_line(rest, true, cap),
         "shape" => prog_line(rest, false, cap),
+        "cmpsnap" => catch_unwind(AssertUnwindSafe(|| emit::cmpsnap_line(rest))).unwrap_or_else(|_| "panic".to_string()),
+        "cmpdec" => catch_unwind(AssertUnwindSafe(|| emit::cmpdec_line(rest))).unwrap_or_else(|_| "panic".to_string()),
+        "maxcons" => catch_unwind(AssertUnwindSafe(|| emit::maxcons_line(rest))).unwrap_or_else(|_| "panic".to_string()),
         "prog2" => prog2_line(rest, cap),
         "dump" => {
             let r = catch_unwind(AssertUnwindSafe(|| {
@@ -162,6 +195,12 @@ fn main() {
                     continue;
                 }
                 writeln!(out, "{}", answer(&line, cap)).unwrap();
+            }
+        }
+        Some("compress") => {
+            for l in std::io::stdin().lock().lines() {
+                let l = l.expect("stdin");
+                println!("{}", emit::compress_hex(&l).unwrap_or_else(|| "err".into()));
             }
         }
         Some("emitv") | Some("emitforced") => {
